@@ -96,6 +96,9 @@ theorem runProg_force_error {f : Nat → St → Res} {t k s e s1} (h : f t s = (
     runProg f (.force t k) s = (.error e, s1) := by
   simp [runProg, h]
 
+/-- No evaluation is under way (the store is observed between requests). -/
+def Quiet (s : St) : Prop := ∀ u, s.st u ≠ some .inProgress
+
 /-- Case analysis on a result. -/
 theorem res_cases (r : Res) : (∃ v s, r = (.ok v, s)) ∨ (∃ e s, r = (.error e, s)) := by
   rcases r with ⟨_ | _, s⟩
@@ -196,6 +199,16 @@ theorem Mono.inProgress {s s' : St} (hm : Mono s s') {u : Nat} (hu : s.st u = so
 theorem Mono.done {s s' : St} (hm : Mono s s') {u : Nat} {v : Val} (hu : s.st u = some (.done v)) :
     s'.st u = some (.done v) := by
   rw [(hm.frozen u (by rw [hu]; simp)).1, hu]
+
+theorem st_some_lt {s : St} {u : Nat} {x : TState} (h : s.st u = some x) : u < s.states.length := by
+  unfold St.st at h
+  rcases Nat.lt_or_ge u s.states.length with h' | h'
+  · exact h'
+  · rw [List.getElem?_eq_none h'] at h; cases h
+
+theorem st_none_ge {s : St} {u : Nat} (h : s.st u = none) : s.states.length ≤ u := by
+  unfold St.st at h
+  exact List.getElem?_eq_none_iff.mp h
 
 theorem st_cases (s : St) (t : Nat) :
     s.st t = none ∨ s.st t = some .pending ∨ s.st t = some .inProgress ∨ ∃ v, s.st t = some (.done v) := by
